@@ -15,6 +15,7 @@ var Registry = map[string]func(tier string){
 	"C06": C06,
 	"C07": C07,
 	"C08": C08,
+	"C09": C09,
 	"C10": C10,
 	"C12": C12,
 	"C13": C13,
@@ -29,7 +30,11 @@ var Registry = map[string]func(tier string){
 
 // Worker is the entry point of re-exec'd worker processes (C09).
 func Worker(args []string) {
-	fmt.Fprintln(os.Stderr, "no worker registered")
+	if len(args) >= 6 && args[0] == "c09" {
+		c09Worker(args[1:])
+		return
+	}
+	fmt.Fprintln(os.Stderr, "unknown worker", args)
 	os.Exit(2)
 }
 
